@@ -488,8 +488,9 @@ def extract_model_operations(in_model):
 
       kernel_h, kernel_w, _, _ = weight_1.shape
 
+      # channels_o = channels_i * depth_multiplier
       number_of_operations = (
-          kernel_h * kernel_w * height_o * width_o * channels_i)
+          kernel_h * kernel_w * height_o * width_o * channels_o)
 
       number_of_weights = (kernel_h * kernel_w * channels_o * channels_i)
 
